@@ -279,6 +279,170 @@ class _ParseLattice:
         yield 'parsed-ranges', {k: list(v) for k, v in result.items()} == want
 
 
+# ------------------------------------------------------------------ develop_lattice (modular: callees by contract)
+
+from t4_geom_convert.Kernel.Volume.CellConversion import CellConversion as _CC
+from t4_geom_convert.Kernel.Volume import CellConversion as _CCMOD
+from t4_geom_convert.Kernel.Volume.CellMCNP import CellMCNP as _CellMCNP
+from t4_geom_convert.Kernel.Transformation import Transformation as _TRMOD
+from pyvc.interp import havoc as _havoc
+from contracts.c01 import new_conv as _new_conv, OpaqueNode as _OpaqueNode
+from contracts.c04 import image as _image, spec_compose as _spec_compose, compose_pre as _compose_pre
+
+_T_F = (1.0, 2.0, 3.0, 0.0, 1.0, 0.0, -1.0, 0.0, 0.0, 0.0, 0.0, 1.0)        # a fill transformation (not symmetric)
+_T_C = (0.5, 0.0, 0.25, 0.6, 0.8, 0.0, -0.8, 0.6, 0.0, 0.0, 0.0, 1.0)      # a TRCL (not symmetric)
+_T_C2 = (0.0, 0.0, 4.0, 0.0, 0.0, 1.0, 1.0, 0.0, 0.0, 0.0, 1.0, 0.0)
+
+
+def _lat_transform_hook():
+    """cell_transform by contract: a fresh key whose cell is a copy of the cell with its geometry moved."""
+    def hook(it, f, args, kw):
+        conv, cell_key, transform = args[0], args[1], args[2]
+        cache = args[3] if len(args) > 3 else kw.get('cache', True)
+        conv.new_cell_key += 1
+        new_key = conv.new_cell_key
+        src = conv.dic_cell_mcnp[cell_key]
+        conv.dic_cell_mcnp[new_key] = _CellMCNP(src.materialID, src.density,
+                                                _OpaqueNode(moved_from=cell_key, by=tuple(transform)), src.importance,
+                                                src.universe, src.fillid, src.filltr, src.lattice, list(src.trcl),
+                                                list(src.idorigin))
+        it.p.calls.append({'callee': 'cell_transform', 'args': [cell_key, tuple(transform), cache], 'kw': {},
+                           'result': new_key})
+        return new_key
+    hook.callee_name = 'cell_transform'
+    return hook
+
+
+_LAT_SHAPES = [
+    # (label, number of base vectors, bounds, universes first index fastest)   own universe = 9
+    ('1D', 1, [(-1, 1)], [2, 9, 0]),
+    ('2D', 2, [(0, 1), (-1, 0)], [2, 0, 9, 3]),
+    ('3D', 3, [(0, 1), (0, 0), (-1, 0)], [2, 3, 0, 9]),
+    ('2D+trivial-third-range', 2, [(0, 1), (0, 1), (0, 0)], [3, 2, 9, 0]),
+]
+
+
+@contract(_CC.develop_lattice, props=['C06', 'C07', 'C05'], name='CellConversion.develop_lattice')
+class _Develop:
+    """For every element (i, j, k) of the declared ranges whose universe is not 0 there is exactly one new cell, in
+    the order of the FILL array: the lattice cell moved by the translation i a1 + j a2 + k a3 (a_m = the base vectors
+    returned by squareLatticeBaseVectors / hexLatticeBaseVectors, here arbitrary), filled with the universe of that
+    element (or, for the cell's own universe, not filled and of the cell's material); its fill transformation is, as a
+    map on points, `fill transformation of the cell, then the element translation` or, without a fill transformation,
+    `TRCL of the cell, then the element translation` (the base vectors are those of the already moved planes); LAT is
+    cleared; the lattice cell itself is removed.  A cell carries at most one TRCL (the only producer,
+    parse_one_cell_worker, builds `[]` or `[trcl]`).
+    Universe 0 yields no cell.  Callees are replaced by their contracts (base vectors: C06 / C07, cell_transform: C05,
+    compose_transform: C04 -- its precondition is an obligation here); latticeVector and LatticeSpec.items run as
+    written."""
+    native = False
+    hooks = {}
+
+    def cases(S):
+        for label, nvec, bounds, univs in _LAT_SHAPES:
+            for lat in (1, 2):
+                if lat == 2 and nvec == 1:
+                    continue
+                for tr_label, filltr, trcl in (('plain', (), []), ('fill-transformation', _T_F, []),
+                                               ('trcl', (), [_T_C]),
+                                               ('fill-transformation+trcl', _T_F, [_T_C])):
+                    yield f'{label}/LAT={lat}/{tr_label}', {
+                        'nvec': nvec, 'bounds': bounds, 'univs': univs, 'lat': lat, 'filltr': filltr, 'trcl': trcl,
+                        'vecs': [S.reals([f'a{m}{c}' for c in 'xyz']) for m in range(nvec)]}
+
+    def ghost(S):
+        return {'r': S.reals('X Y Z')}
+
+    def call(nvec, bounds, univs, lat, filltr, trcl, vecs):
+        spec = LT.LatticeSpec(LT.LatticeBounds(list(bounds)), list(univs))
+        g = _OpaqueNode(tag='lattice-cell')
+        cells = {50: _CellMCNP('4', '-1.0', g, 1.0, 9, spec, tuple(filltr), lat, [tuple(t) for t in trcl], []),
+                 7: _CellMCNP('1', '-2.0', _OpaqueNode(tag='other'), 1.0, 0, None, (), None, [], [])}
+        conv = _new_conv(cells=cells, cell_key=100)
+        _DEV_STATE['vecs'] = vecs
+        conv.develop_lattice(50)
+        return conv, g
+
+    def ensures(result, nvec, bounds, univs, lat, filltr, trcl, vecs, r, calls):
+        conv, g = result
+        dic = conv.dic_cell_mcnp
+        yield 'lattice-cell-removed', 50 not in dic
+        yield 'other-cells-untouched', 7 in dic and dic[7].lattice is None
+        which = [c['callee'] for c in calls.calls if c['callee'] in ('squareLatticeBaseVectors', 'hexLatticeBaseVectors')]
+        yield 'base-vectors-of-the-right-kind', which == (['squareLatticeBaseVectors'] if lat == 1 else ['hexLatticeBaseVectors'])
+        # independent enumeration of the elements: first index fastest
+        ranges = [range(lo, hi + 1) for lo, hi in bounds]
+        idxs = [tuple(reversed(t)) for t in itertools.product(*reversed(ranges))]
+        expected = [(idx, u) for idx, u in zip(idxs, univs) if u != 0]
+        new_keys = sorted(k for k in dic if k > 100)
+        yield 'one-cell-per-element-with-a-universe', len(new_keys) == len(expected)
+        if len(new_keys) != len(expected):
+            return
+        for k, (idx, u) in zip(new_keys, expected):
+            c = dic[k]
+            tag = 'element' + ''.join(f'[{i}]' for i in idx)
+            geo = c.geometry
+            moved_ok = isinstance(geo, _OpaqueNode) and geo.facts.get('moved_from') == 50
+            yield f'{tag}:is-the-lattice-cell-moved', moved_ok
+            if not moved_ok:
+                continue
+            by = geo.facts['by']
+            transl = [sum(idx[m] * vecs[m][c_] for m in range(nvec)) for c_ in range(3)]
+            yield f'{tag}:moved-by-the-element-translation', And(*[close(a, b) for a, b in zip(by[0:3], transl)])
+            yield f'{tag}:moved-without-rotation', list(by[3:12]) == [1., 0., 0., 0., 1., 0., 0., 0., 1.]
+            yield f'{tag}:lattice-flag-cleared', c.lattice is None
+            if u == 9:
+                yield f'{tag}:own-universe-is-not-filled', c.fillid is None and c.materialID == '4'
+            else:
+                yield f'{tag}:filled-with-the-universe-of-the-element', c.fillid == u
+            # the fill transformation as a map on points
+            t_el = list(transl) + [1., 0., 0., 0., 1., 0., 0., 0., 1.]
+            if filltr:
+                want = _image(t_el, _image(list(filltr), r))
+            else:
+                # the TRCL of the cell has already been applied to its geometry when the lattice is developed
+                # (construct_volume_t4 applies every TRCL first), so the base vectors are main-frame vectors: what
+                # fills the element is moved by the TRCL first and by the element translation afterwards
+                want = r
+                for t in trcl:
+                    want = _image(list(t), want)
+                want = _image(t_el, want)
+            got = _image(list(c.filltr), r)
+            yield f'{tag}:fill-transformation-as-a-map', And(*[close(a, b) for a, b in zip(got, want)])
+
+
+_DEV_STATE = {}
+
+
+def _install_develop_hooks():
+    def base_vectors(name):
+        def hook(it, f, args, kw):
+            vecs = _DEV_STATE['vecs']
+            it.p.calls.append({'callee': name, 'args': list(args), 'kw': {}, 'result': vecs})
+            return [tuple(v) for v in vecs]
+        hook.callee_name = name
+        return hook
+
+    def compose(it, f, args, kw):
+        t1, t2 = list(args[0]), list(args[1])
+        from pyvc.interp import _b
+        it.p.oblige('callee-precondition:compose_transform', _b(_compose_pre(t1, t2)))
+        res = _spec_compose(t1, t2)
+        it.p.calls.append({'callee': 'compose_transform', 'args': [t1, t2], 'kw': {}, 'result': res})
+        return res
+    compose.callee_name = 'compose_transform'
+    _Develop.hooks = {
+        _CC.extract_surfaces: lambda it, f, args, kw: 'SURFACES',
+        _CCMOD.squareLatticeBaseVectors: base_vectors('squareLatticeBaseVectors'),
+        _CCMOD.hexLatticeBaseVectors: base_vectors('hexLatticeBaseVectors'),
+        _CC.cell_transform: _lat_transform_hook(),
+        _TRMOD.compose_transform: compose,
+    }
+
+
+_install_develop_hooks()
+
+
 LEVEL = {'C06': 'other'}
 
 
@@ -299,6 +463,6 @@ EXPLANATION = {'C06': (
 ASSUMPTIONS = {'C06': [
     'MCNP lattice convention (specs / deck oracle): element (i,j,k) = unit cell + i a1 + j a2 + k a3, a_m maps the '
     'second-listed plane of pair m onto the first-listed one; FILL array first index fastest',
-    'develop_lattice itself is not under a discharged contract (bounded deck sweep only)',
+    'develop_lattice: discharged modular contract on concrete FILL arrays (4 shapes x LAT 1/2 x 4 transformation settings) with symbolic base vectors; callees by contract (cell_transform, compose_transform with its precondition, base vectors); a cell carries at most one TRCL',
     'LatticeSpec.__getitem__ with a tuple is dead code in the converter and is not under contract',
 ]}
